@@ -91,6 +91,57 @@ def check(run, ctx):
             else:
                 run.undecided(L6, sym, "type of the sliced object not determined")
     run.require(n_l6 >= 1, "no slice by start_byte/end_byte found in src (positive control: the DRY TypeScript value extractor)")
+
+    L7 = run.rule("L7", "tree-sitter code that steps to a neighbouring sibling, or picks the first/last child by position and tests its kind, allows for comment nodes (extras the grammars place anywhere)", floor=1,
+                  decides="a comment line inserted between an attribute and its item, or after the last statement of a body, does not change which construct the rule sees")
+    COMMENT_KINDS = {"comment", "line_comment", "block_comment", "doc_comment"}
+    n_l7 = 0
+    for f in sorted(repo.funcs.values(), key=lambda x: x.qual):
+        if not f.module.name.startswith("src.") or f.parent is not None:
+            continue
+        steps = [n for n in ast.walk(f.node) if isinstance(n, ast.Attribute) and n.attr in ("prev_sibling", "next_sibling")]
+        child_lists = {t.id for a in ast.walk(f.node) if isinstance(a, ast.Assign) and isinstance(a.value, ast.Attribute) and a.value.attr in ("named_children", "children") for t in a.targets if isinstance(t, ast.Name)}
+        picks = [n for n in ast.walk(f.node) if isinstance(n, ast.Subscript) and isinstance(n.slice, (ast.Constant, ast.UnaryOp))
+                 and ((isinstance(n.value, ast.Attribute) and n.value.attr in ("named_children", "children")) or (isinstance(n.value, ast.Name) and n.value.id in child_lists))
+                 and isinstance(repo.fold(f.module, n.slice), int) and repo.fold(f.module, n.slice) == -1]
+        if not steps and not picks:
+            continue
+        # does the function test node kinds at all (otherwise it is not deciding anything by kind)?
+        kinds = set()
+        for n in ast.walk(f.node):
+            if isinstance(n, ast.Compare) and isinstance(n.left, ast.Attribute) and n.left.attr == "type":
+                for c_ in n.comparators:
+                    v = repo.fold(f.module, c_)
+                    kinds |= {v} if isinstance(v, str) else set(v) if isinstance(v, (tuple, list, set, frozenset)) else set()
+        if not kinds:
+            continue
+        n_l7 += 1
+        sym = f.qual.replace("src.", "", 1)
+        what = "steps over siblings (prev_sibling/next_sibling)" if steps else f"takes `{norm(picks[0])}`"
+        if kinds & COMMENT_KINDS:
+            run.ok(L7, sym, f"{what} and handles {sorted(kinds & COMMENT_KINDS)}")
+        else:
+            w = steps[0] if steps else picks[0]
+            run.finding(L7, sym, f"comment-blind:{'sibling-walk' if steps else norm(picks[0])[:40]}", f"{f.qual} {what} and tests node kinds {sorted(kinds)[:4]} without allowing for comment nodes: tree-sitter places comments as ordinary (named) siblings, so a comment line inserted at that position changes what the rule sees - and with it the set of violations", f"{f.module.rel}:{w.lineno}")
+    # text quoted from a source line is stripped of its indentation before anything length-dependent happens to it
+    n_strip = 0
+    for f in sorted(repo.funcs.values(), key=lambda x: x.qual):
+        if not f.module.name.startswith("src.") or f.parent is not None:
+            continue
+        for n in ast.walk(f.node):
+            if not (isinstance(n, ast.Call) and isinstance(n.func, ast.Attribute) and n.func.attr in ("strip", "lstrip") and not n.args):
+                continue
+            recv = n.func.value
+            if isinstance(recv, ast.Subscript) and isinstance(recv.slice, ast.Slice) and isinstance(recv.value, ast.Subscript):
+                # lines[i][:N].strip(): cut first, strip second
+                up = recv.slice.upper
+                if up is not None and recv.slice.lower is None:
+                    n_strip += 1
+                    run.finding(L7, f.qual.replace("src.", "", 1), f"cut-before-strip:{norm(n)[:50]}", f"{f.qual}: `{norm(n)[:80]}` cuts the raw line to a fixed width before stripping its indentation, so the quoted text (and the violation message built from it) changes when the file is re-indented", f"{f.module.rel}:{n.lineno}")
+            elif isinstance(recv, ast.Subscript) and not isinstance(recv.slice, ast.Slice):
+                n_strip += 1
+    run.require(n_strip >= 3, f"L7: only {n_strip} `<lines>[i].strip()` sites found (positive control: core.linter_utils.get_line_context)")
+    run.require(n_l7 >= 1, "L7: no sibling walk / last-child test found (positive control: rust_context._preceding_attributes)")
     return __doc__
 
 
